@@ -42,8 +42,7 @@ UNIT = {
               else { match object_at(self.backend.bytes(), self.start_offset + pos, self.decoder, flags) {
                          Ok(p) => res == Ok::<Primitive, PdfError>(p), Err(_) => res is Err } })'''),
         ('compressed_is_stream_member', NOT_PENDING + '''(self.entry(r.id) matches Some(XRef::Stream { stream_id, index }) ==>
-              if !has_stream_flag(flags) { res matches Err(PdfError::PrimitiveNotAllowed) }
-              else { match member_of(stream_id, index as int, flags) { Ok(p) => res == Ok::<Primitive, PdfError>(p), Err(_) => res is Err } })'''),
+              match member_of(stream_id, index as int, flags) { Ok(p) => res == Ok::<Primitive, PdfError>(p), Err(_) => res is Err })'''),
         # C02 "A number whose most recent mention frees it ... is reported as free ..., never as an older value"
         ('free_is_free_object_error', NOT_PENDING + '(self.entry(r.id) matches Some(XRef::Free { .. }) ==> res == Err::<Primitive, PdfError>(PdfError::FreeObject { obj_nr: r.id }))'),
         ('undefined_is_null_ref_error', NOT_PENDING + '(self.entry(r.id) matches Some(XRef::Invalid) ==> res == Err::<Primitive, PdfError>(PdfError::NullRef { obj_nr: r.id }))'),
@@ -51,7 +50,7 @@ UNIT = {
      ],
      'rewrites': [
         {'rule': 'R1', 'regex': r'\A\{', 'replace': '{\n        proof { reveal_with_fuel(root, 3); }'},   # at the top of the body
-        {'rule': 'R3', 'find': 'PdfError::PrimitiveNotAllowed { found: ParseFlags::STREAM, allowed: flags }', 'replace': 'PdfError::PrimitiveNotAllowed'},
+        {'rule': 'R3', 'regex': r'PdfError::PrimitiveNotAllowed \{ found: ParseFlags::STREAM, allowed: flags \}', 'replace': 'PdfError::PrimitiveNotAllowed', 'count': '*'},
         # R7: the four statements of the object-stream arm; the flags expression handed to `parse` stays verbatim
         {'rule': 'R7', 'regex': r'let obj_stream = resolve\.get::<ObjectStream>\(Ref::from_id\(stream_id\)\)\?;\s*'
                                 r'let \(data, range\) = t!\(obj_stream\.get_object_slice\(index, resolve\)\);\s*'
